@@ -11,7 +11,7 @@ import vlib
 from checks import audcommon
 
 PID = "C08"
-THEOREMS = ["c08_one_point_per_match", "c08_only_watchers_get_rows", "c08_value_correct",
+THEOREMS = ["c08_one_point_per_match", "c08_only_watchers_get_rows", "c08_every_watcher_gets_every_point", "c08_value_correct",
             "c08_time_correct", "c08_time_by_group", "c08_unparsable_drops_point_only",
             "c08_other_signals_unaffected", "c08_no_match_no_point", "c08_observers_never_stop_the_play"]
 
@@ -50,7 +50,20 @@ def eval_shard(args):
     if not oracle_only:
         queries = [("MD", "bad_indices detect_model_bad cases"), ("MP", "bad_indices parse_model_bad cases"),
                    ("MR", "bad_indices rows_model_bad cases")] + queries
+    # the pid keeps concurrent runs of this check (seed / harmless-change
+    # tests run several) from overwriting each other's case files
+    tag = "%s_p%d" % (tag, os.getpid())
     rc, cout, q, path = vlib.eval_cases(PID, tag, audcommon.HEADER % "Model.Spotlight Corr.C08", cases_v, queries, timeout=3000)
+    base = path[:-2]
+    for ext in (".v", ".vo", ".vok", ".vos", ".glob"):
+        try:
+            os.remove(base + ext)
+        except OSError:
+            pass
+    try:
+        os.remove(os.path.join(os.path.dirname(path), "." + os.path.basename(base) + ".aux"))
+    except OSError:
+        pass
     return rc, cout, {k: vlib.parse_nat_list(v) for k, v in q.items()}, path
 
 
@@ -247,7 +260,7 @@ def run(tier, seed):
     cases_v, cases, summary = r
     res.coverage.update({
         "evaluations": summary["cases"], "distinct_nontrivial": summary["distinct_nontrivial"],
-        "rule": "generated roles (1-2 roles x 1-4 signals: event/scalar/delta x ts_now/ts_deltasecs/ts_rfc3339/ts_log, expandable empty group or spelled-out \\S+ group, whole-line patterns, value classes \\S+ \\d+ [-+.0-9eE]+ \\w+ rest-of-line, and the everything-is-the-text shape that also matches the empty string), 1-3 actors per role (separate `plays` lines or siblings of one `p* play N role` line), 0-3 observers per signal through `watches <actor>` / `watches every <role>` clauses (+ an auditor mentioning a signal in 1 of 4), x 4-25 items (lines of all actors interleaved, blank lines, matching 0/1/several signals, repeated and changing values in many numeral syntaxes, malformed numerals and dates, time going forth/back/equal/far future/before the play start, mood changes, end of play), all through the real detectSignals -> checkEvent -> collectObservation via the hook; non-trivial = distinct (config, items) with >= 3 lines and >= 3 expected rows",
+        "rule": "generated roles (1-2 roles x 1-4 signals: event/scalar/delta x ts_now/ts_deltasecs/ts_rfc3339/ts_log, expandable empty group or spelled-out \\S+ group, whole-line patterns, value classes \\S+ \\d+ [-+.0-9eE]+ \\w+ rest-of-line, and the everything-is-the-text shape that also matches the empty string), 1-3 actors per role (separate `plays` lines or siblings of one `p* play N role` line), 0-3 observers per signal through `watches <actor>` / `watches every <role>` clauses (+ in 1 of 2 an auditor mentioning a signal of any kind in its expressions, auditing throughout or only while a condition on that signal / the mood / t holds, in half of these as the ONLY watcher of the signal), x 4-25 items (lines of all actors interleaved, blank lines, matching 0/1/several signals, repeated and changing values in many numeral syntaxes, malformed numerals and dates, time going forth/back/equal/far future/before the play start, mood changes, end of play), all through the real detectSignals -> checkEvent -> collectObservation via the hook; non-trivial = distinct (config, items) with >= 3 lines and >= 3 expected rows",
         "samples": summary["samples"][:2],
         "distribution": summary["stats"],
         "traces_validated_against_impl": summary["cases"],
@@ -298,7 +311,7 @@ def run(tier, seed):
                 report_oracle(res, eev["OC"], ecases, describe_e2e)
                 res.coverage["end_to_end_plays"] = {"plays": esummary["cases"], "stats": esummary["stats"],
                                                    "oracle_failures": sum(1 for c in eev["OC"] if c),
-                                                   "rule": "plays through the real binary with 2-4 actors (of one role and of different roles), each actor's spotlight script printing its own generated lines (stdout/stderr alternating, blanks around lines, blank lines, uneven pace) and one last line from its SIGHUP handler while the spotlight is being shut down at the end of the play; per (observer, actor, signal) file the rows must be that actor's good lines exactly once, and every script must have been started exactly once"}
+                                                   "rule": "plays through the real binary with 2-4 actors (of one role and of different roles), each actor's spotlight script printing its own generated lines (stdout/stderr alternating, blanks around lines, blank lines, uneven pace) and one last line from its SIGHUP handler while the spotlight is being shut down at the end of the play (every second spotlight's output ends without a newline); per (observer, actor, signal) file the rows must be that actor's good lines exactly once, and every script must have been started exactly once"}
                 if esummary["stats"].get("inconclusive-play-cut-short"):
                     res.notes.append("%d end-to-end plays ended before a spotlight had printed all its lines (sentinel row missing): not judged" % esummary["stats"]["inconclusive-play-cut-short"])
     if not res.violations and lastline_scenario_enabled():
